@@ -230,7 +230,7 @@ func ruleK6(c *Ctx, id string) {
 	}
 	isStart := func(v ssa.Value) bool {
 		cl, ok := resultOf(v).(*ssa.Call)
-		return ok && cl.Call.StaticCallee() != nil && cl.Call.StaticCallee().Name() == "BitmapBlockStart"
+		return ok && staticCallee(cl) != nil && staticCallee(cl).Name() == "BitmapBlockStart"
 	}
 	okW1 := w1 != nil && isStart(callCommon(w1).Args[0]) && reachableFrom(l1.at, w1)
 	R.Check(okW1, id, "nfs.markAlloc|head block written at BitmapBlockStart()", P.Pos(mark.Pos()), "the block marked by the first loop is written to the first bitmap block, after the loop", "address and order", "the head marks are written elsewhere or before they are made")
@@ -309,18 +309,18 @@ func ruleK5(c *Ctx, id string) {
 		start, length := "", ""
 		for v := range bwdAll(w.Val) {
 			cl, isC := v.(*ssa.Call)
-			if !isC || cl.Call.StaticCallee() != rb {
+			if !isC || staticCallee(cl) != rb {
 				continue
 			}
-			if sc, ok := stripConv(cl.Call.Args[1]).(*ssa.Call); ok && sc.Call.StaticCallee() != nil {
-				start = sc.Call.StaticCallee().Name()
+			if sc, ok := stripConv(cl.Call.Args[1]).(*ssa.Call); ok && staticCallee(sc) != nil {
+				start = staticCallee(sc).Name()
 			}
 			_, length, _, _ = loadedField(cl.Call.Args[2])
 		}
 		// the allocator is given all of what was read: no re-slicing between readBitmap and MkAlloc
 		for v := range bwdAll(w.Val) {
 			cl, isC := v.(*ssa.Call)
-			if !isC || cl.Call.StaticCallee() == nil || cl.Call.StaticCallee().Name() != "MkAlloc" || len(cl.Call.Args) != 1 {
+			if !isC || staticCallee(cl) == nil || staticCallee(cl).Name() != "MkAlloc" || len(cl.Call.Args) != 1 {
 				continue
 			}
 			cut := ""
@@ -340,7 +340,7 @@ func ruleK5(c *Ctx, id string) {
 	okLoop := false
 	for _, b := range rb.Blocks {
 		for _, in := range b.Instrs {
-			if cl, ok := in.(*ssa.Call); ok && cl.Call.StaticCallee() != nil && cl.Call.StaticCallee().Name() == "Load" && reachableFrom(in, in) {
+			if cl, ok := in.(*ssa.Call); ok && staticCallee(cl) != nil && staticCallee(cl).Name() == "Load" && reachableFrom(in, in) {
 				okLoop = true
 			}
 		}
@@ -365,11 +365,11 @@ func ruleK5(c *Ctx, id string) {
 			for _, b := range sc.Fn.Blocks {
 				for _, in := range b.Instrs {
 					cl, ok := in.(*ssa.Call)
-					if !ok || cl.Call.StaticCallee() == nil || cl.Call.StaticCallee().Name() != "Load" {
+					if !ok || staticCallee(cl) == nil || staticCallee(cl).Name() != "Load" {
 						continue
 					}
 					ac, isA := sc.S.resolve(stripConv(argN(cl, 0))).(*ssa.Call)
-					if !isA || ac.Call.StaticCallee() == nil || ac.Call.StaticCallee().Name() != "MkAddr" || len(ac.Call.Args) < 2 {
+					if !isA || staticCallee(ac) == nil || staticCallee(ac).Name() != "MkAddr" || len(ac.Call.Args) < 2 {
 						continue
 					}
 					if off, isk := constInt(stripConv(ac.Call.Args[1])); !isk || off != 0 {
@@ -462,14 +462,14 @@ func accessorForm(fn *ssa.Function) (prev string, field string, ok bool) {
 			} else if cl, ok := stripConv(bo.Y).(*ssa.Call); ok {
 				call, other = cl, bo.X
 			}
-			if call == nil || call.Call.StaticCallee() == nil {
+			if call == nil || staticCallee(call) == nil {
 				return "", "", false
 			}
 			_, fl, base, _ := loadedField(other)
 			if fl == "" || base != ssa.Value(fn.Params[0]) || recvOf(call) != ssa.Value(fn.Params[0]) {
 				return "", "", false
 			}
-			return call.Call.StaticCallee().Name(), fl, true
+			return staticCallee(call).Name(), fl, true
 		}
 		_, fl, base, _ := loadedField(v)
 		if fl != "" && base == ssa.Value(fn.Params[0]) {
@@ -642,11 +642,11 @@ func ruleK3(c *Ctx, id string) {
 	}
 	for _, call := range P.CallsIn(mkfs, funcIs(mark)) {
 		n1, n2 := "", ""
-		if cl, ok := stripConv(argN(call, 1)).(*ssa.Call); ok && cl.Call.StaticCallee() != nil {
-			n1 = cl.Call.StaticCallee().Name()
+		if cl, ok := stripConv(argN(call, 1)).(*ssa.Call); ok && staticCallee(cl) != nil {
+			n1 = staticCallee(cl).Name()
 		}
-		if cl, ok := stripConv(argN(call, 2)).(*ssa.Call); ok && cl.Call.StaticCallee() != nil {
-			n2 = cl.Call.StaticCallee().Name()
+		if cl, ok := stripConv(argN(call, 2)).(*ssa.Call); ok && staticCallee(cl) != nil {
+			n2 = staticCallee(cl).Name()
 		}
 		R.Check(n1 == "DataStart" && n2 == "MaxBnum", id, "nfs.makeFs|markAlloc(DataStart, MaxBnum)", P.Pos(call.Pos()), "mkfs marks everything outside [DataStart(), MaxBnum()) as used", "accessor identity", fmt.Sprintf("markAlloc(%s, %s): blocks of the metadata regions (or beyond the disk) are allocatable, or data blocks are unusable", n1, n2))
 	}
@@ -661,7 +661,7 @@ func ruleK3(c *Ctx, id string) {
 				continue
 			}
 			cl, ok := stripConv(br.Cond.Y).(*ssa.Call)
-			if !ok || cl.Call.StaticCallee() == nil {
+			if !ok || staticCallee(cl) == nil {
 				continue
 			}
 			// does the true side reject?  (reaches a panic, or returns constant false from a predicate)
@@ -692,7 +692,7 @@ func ruleK3(c *Ctx, id string) {
 			if !rejects(br.True) && rejects(br.False) {
 				op = negOp(op)
 			}
-			switch cl.Call.StaticCallee().Name() {
+			switch staticCallee(cl).Name() {
 			case "DataStart":
 				lo = op.String()
 			case "MaxBnum":
@@ -754,8 +754,8 @@ func ruleK3(c *Ctx, id string) {
 						hc, refuseOn = cl, map[bool]string{true: "nonnil", false: "nil"}[nonnilSide]
 					}
 				}
-				if hc != nil && hc.Call.StaticCallee() != nil && isPrivateHelper(hc.Call.StaticCallee()) && hc.Call.StaticCallee().Blocks != nil {
-					h := hc.Call.StaticCallee()
+				if hc != nil && staticCallee(hc) != nil && isPrivateHelper(staticCallee(hc)) && staticCallee(hc).Blocks != nil {
+					h := staticCallee(hc)
 					hname := func(p *ssa.Parameter) string {
 						for i, q := range h.Params {
 							if q == p && i < len(hc.Call.Args) {
@@ -870,7 +870,7 @@ func ruleK3(c *Ctx, id string) {
 	for _, b := range mark.Blocks {
 		for _, in := range b.Instrs {
 			if k, ok := rawDiskOp(in); ok && k == "write" {
-				if cl, ok := resultOf(callCommon(in).Args[0]).(*ssa.Call); ok && cl.Call.StaticCallee() != nil && cl.Call.StaticCallee().Name() == "BitmapInodeStart" {
+				if cl, ok := resultOf(callCommon(in).Args[0]).(*ssa.Call); ok && staticCallee(cl) != nil && staticCallee(cl).Name() == "BitmapInodeStart" {
 					wroteAtInodeBitmap = true
 				}
 			}
@@ -984,7 +984,7 @@ func viaPure(v ssa.Value, sub Subst) (ssa.Value, Subst) {
 	if cl == nil {
 		return v, sub
 	}
-	cal := cl.Call.StaticCallee()
+	cal := staticCallee(cl)
 	if cal == nil || !pureHelper(cal) {
 		return v, sub
 	}
@@ -1022,7 +1022,7 @@ func resultOf(v ssa.Value) ssa.Value {
 		if cl == nil {
 			return v
 		}
-		cal := cl.Call.StaticCallee()
+		cal := staticCallee(cl)
 		if cal == nil || !IsRepoFunc(cal) || !isPrivateHelper(cal) || cal.Blocks == nil {
 			return v
 		}
